@@ -177,7 +177,7 @@ func r01IndexAligned(c *core.Ctx) {
 			})
 		}
 	}
-	c.Floor(R, 8)
+	c.Floor(R, 6)
 }
 
 // ---------------------------------------------------------------- R10
